@@ -134,3 +134,40 @@ package authenticators
 //@   ensures ret1 == nil ==> tclaims.n == old(tclaims.n) + 1 && tclaims.arg0[old(tclaims.n)] == token && tclaims.arg1[old(tclaims.n)] == iface(key) && tclaims.ret0[old(tclaims.n)] == nil
 //@   ensures ret1 == nil ==> cval.n == old(cval.n) + 1 && cval.ret0[old(cval.n)] == nil && cval.arg1[old(cval.n)] == *assertions
 //@   ensures ret1 == nil ==> jm.n > old(jm.n) && ret0 == jm.ret0[jm.n - 1]
+
+// ---- C04: an authenticator reports an argument-kind error (the kind that lets the next
+// authenticator be consulted) only when it found no usable credentials of its kind: the extraction
+// of the authentication data failed or - for the JWT authenticator - what was extracted is not a JWT
+// at all. Rejected credentials (bad signature, wrong password, inactive token, failed assertion,
+// failed communication) are never of that kind; that none of the functions called on those paths
+// returns an argument-kind error is the zero-annotation error-kind sweep (contracts/props/C04.json).
+// The other direction: a failed extraction is passed on as an argument-kind error.
+
+//@ func (*basicAuthAuthenticator).Execute
+//@   props C04
+//@   ensures Is(ret1, heimdall.ErrArgument) ==> gad.n > old(gad.n) && gad.ret1[old(gad.n)] != nil
+//@   ensures gad.n > old(gad.n) && Is(gad.ret1[old(gad.n)], heimdall.ErrArgument) ==> Is(ret1, heimdall.ErrArgument)
+
+//@ func (*genericAuthenticator).Execute
+//@   props C04
+//@   ensures Is(ret1, heimdall.ErrArgument) ==> gad.n > old(gad.n) && gad.ret1[old(gad.n)] != nil
+//@   ensures gad.n > old(gad.n) && Is(gad.ret1[old(gad.n)], heimdall.ErrArgument) ==> Is(ret1, heimdall.ErrArgument)
+
+//@ func (*oauth2IntrospectionAuthenticator).Execute
+//@   props C04
+//@   ensures Is(ret1, heimdall.ErrArgument) ==> gad.n > old(gad.n) && gad.ret1[old(gad.n)] != nil
+//@   ensures gad.n > old(gad.n) && Is(gad.ret1[old(gad.n)], heimdall.ErrArgument) ==> Is(ret1, heimdall.ErrArgument)
+
+//@ func (*jwtAuthenticator).Execute
+//@   props C04
+//@   ensures Is(ret1, heimdall.ErrArgument) ==> gad.n > old(gad.n) && (gad.ret1[old(gad.n)] != nil || (jparse.n > old(jparse.n) && jparse.ret1[old(jparse.n)] != nil))
+//@   ensures gad.n > old(gad.n) && Is(gad.ret1[old(gad.n)], heimdall.ErrArgument) ==> Is(ret1, heimdall.ErrArgument)
+
+// the precondition of verifyTokenWithKey (a parsed token has a header) at its call sites
+//@ func (*jwtAuthenticator).verifyToken
+//@   props C04 C05
+//@   requires len(token.Headers) > 0
+
+//@ func (*jwtAuthenticator).verifyTokenWithoutKID
+//@   props C04 C05
+//@   requires len(token.Headers) > 0
